@@ -620,6 +620,24 @@ pub fn suite_resync(dir: &str, seed: u64, thorough: bool, st: &mut Stats) {
             }
         }
     }
+    // windows of 2^16 bytes and more (run counters and ring indexes beyond 16 bits), a long run of one byte inside the
+    // common data: implementation-side oracle only (the model would take O(window) per byte)
+    for k in 0..(if thorough { 6 } else { 2 }) {
+        let win = *rng.pick(&[65536usize, 65536 + 40, 70000]);
+        let cfg = Cfg { algo: if k % 2 == 0 { 'B' } else { 'R' }, bits: 8, min: win + rng.range(1000, 6000) as usize, max: 200_000, win };
+        let mut s: Vec<u8> = vec![if rng.chance(1, 2) { 0 } else { rng.next() as u8 }; rng.range(300_000, 500_000) as usize];
+        s.extend((0..rng.range(400_000, 600_000)).map(|_| rng.next() as u8));
+        // the second prefix is cut at one of its own chunk ends, so that P2+S has a boundary where S begins
+        let raw: Vec<u8> = (0..rng.range(250_000, 500_000)).map(|_| rng.next() as u8).collect();
+        let p2: Vec<u8> = match run_chunker(&cfg, &raw, vec![]) { Ok((ch, _)) if ch.len() >= 2 => { let l: usize = ch[..ch.len() - 1].iter().map(|c| c.1.len()).sum(); raw[..l].to_vec() } _ => raw };
+        let p1: Vec<u8> = vec![];
+        st.oracle_checks += 1;
+        st.evaluations += 1;
+        match c10_oracle(&cfg, &p1, &p2, &s) {
+            Ok(nontrivial) => st.count(&format!("resync/{}/window>=2^16/{}", cfg.algo, if nontrivial { "common-boundary" } else { "no-common-boundary" })),
+            Err(what) => st.violation("C10", &format!("window {}: {}", win, what), &format!("resync-hugewin {} |P2|={} |S|={} seed={}", cfg.line(), p2.len(), s.len(), seed)),
+        }
+    }
     out.finish();
 }
 
